@@ -640,6 +640,79 @@ fn replay_daily_marks(sc: &Value) -> Value {
     json!({"status": "done", "missing": missing, "missing_culprit": culprit_missing, "marks": marks.len()})
 }
 
+/// C02 (received references): through the API of a real database.  The local user owns two rooms; the remote author may write
+/// ns.E in room A only.  While room A is synchronised it delivers a validly signed reference whose SOURCE row lives in room B.
+fn replay_received_edge_foreign_source(sc: &Value) -> Value {
+    let has_right = sc["author_has_right"].as_bool().unwrap_or(true);
+    let in_room = sc["source_in_room"].as_bool().unwrap_or(false);
+    use crate::database::graph_database::GraphDatabaseService;
+    use crate::database::query_language::parameter::{Parameters, ParametersAdd};
+    let rt = tokio::runtime::Builder::new_multi_thread().enable_all().worker_threads(2).build().unwrap();
+    rt.block_on(async {
+        let base = std::env::var("VERIF_DATA_DIR").unwrap_or_else(|_| "/var/cache/discret-verif/data".to_string());
+        let path: std::path::PathBuf = format!("{}/c02edge/{}", base, crate::security::base64_encode(&crate::security::random32()[0..6])).into();
+        std::fs::create_dir_all(&path).unwrap();
+        let (app, own_key, _) = GraphDatabaseService::start(
+            "verif c02 edges",
+            "ns { E{ name:String, refs:[ns.E] } }",
+            &crate::security::random32(),
+            &crate::security::random32(),
+            path,
+            &crate::configuration::Configuration::default(),
+            crate::event_service::EventService::new(),
+        )
+        .await
+        .unwrap();
+        let mut keys = Keys::new();
+        let attacker = crate::security::base64_encode(&keys.vk("K2"));
+        let own = crate::security::base64_encode(&own_key);
+        // room A: the remote author is a user with rights on ns.E; room B: it is nothing
+        let mut p = Parameters::default();
+        p.add("k", own.clone()).unwrap();
+        // without the right: the remote author is not a member of room A at all
+        p.add("a", if has_right { attacker.clone() } else { crate::security::base64_encode(&keys.vk("K3")) }).unwrap();
+        let ra = app
+            .mutate_raw(
+                r#"mutate { sys.Room{ admin:[{ verif_key:$k }] authorisations:[{ name:"g" rights:[{ entity:"ns.E" mutate_self:true mutate_all:true }] users:[{ verif_key:$k },{ verif_key:$a }] }] } }"#,
+                Some(p),
+            )
+            .await
+            .unwrap();
+        let room_a = ra.mutate_entities[0].node_to_mutate.id;
+        let mut p = Parameters::default();
+        p.add("k", own.clone()).unwrap();
+        let rb = app
+            .mutate_raw(
+                r#"mutate { sys.Room{ admin:[{ verif_key:$k }] authorisations:[{ name:"g" rights:[{ entity:"ns.E" mutate_self:true mutate_all:true }] users:[{ verif_key:$k }] }] } }"#,
+                Some(p),
+            )
+            .await
+            .unwrap();
+        let room_b = rb.mutate_entities[0].node_to_mutate.id;
+        let mut p = Parameters::default();
+        p.add("room", crate::security::base64_encode(if in_room { &room_a } else { &room_b })).unwrap();
+        let victim = app.mutate_raw(r#"mutate { ns.E{ room_id:$room name:"row of room B" } }"#, Some(p)).await.unwrap();
+        let victim_id = victim.mutate_entities[0].node_to_mutate.id;
+        let short_entity = victim.mutate_entities[0].node_to_mutate.node.as_ref().unwrap()._entity.clone();
+        let mut p = Parameters::default();
+        p.add("room", crate::security::base64_encode(&room_a)).unwrap();
+        let target = app.mutate_raw(r#"mutate { ns.E{ room_id:$room name:"attached by a stranger" } }"#, Some(p)).await.unwrap();
+        let target_id = target.mutate_entities[0].node_to_mutate.id;
+        // label = storage id of the field `refs`: taken from a reference written locally on another row
+        let mut p = Parameters::default();
+        p.add("room", crate::security::base64_encode(&room_a)).unwrap();
+        p.add("t", crate::security::base64_encode(&target_id)).unwrap();
+        let probe = app.mutate_raw(r#"mutate { ns.E{ room_id:$room name:"probe" refs:[{ id:$t }] } }"#, Some(p)).await.unwrap();
+        let label = probe.mutate_entities[0].edge_insertions[0].label.clone();
+        let before = app.query(r#"query { ns.E(name="row of room B"){ name refs{ name } } }"#, None).await.unwrap();
+        let mut edge = Edge { src: victim_id, src_entity: short_entity, label, dest: target_id, cdate: crate::date_utils::now(), verifying_key: keys.vk("K2"), signature: vec![] };
+        edge.sign(keys.signing("K2")).unwrap();
+        let refused = app.add_edges(room_a, vec![edge]).await.unwrap();
+        let after = app.query(r#"query { ns.E(name="row of room B"){ name refs{ name } } }"#, None).await.unwrap();
+        json!({"status": "done", "refused": refused.len(), "stored": after.contains("attached by a stranger"), "before": before.replace('\n', ""), "after": after.replace('\n', "")})
+    })
+}
+
 /// C11: through the API of a real database: a row is written and deleted; then a peer that has not seen the deletion announces it
 /// (filter_existing_node) and, if it is requested, delivers it (add_nodes).  Is the row visible again ?
 fn replay_deleted_row_announced(sc: &Value) -> Value {
@@ -1717,6 +1790,7 @@ pub fn dispatch(sc: &Value) -> Value {
         "handshake" => crate::synchronisation::peer_inbound_service::verif_hook::replay_handshake(sc),
         "version_selection" => replay_version_selection(sc),
         "deleted_row_announced" => replay_deleted_row_announced(sc),
+        "received_edge_foreign_source" => replay_received_edge_foreign_source(sc),
         "lock_service" => crate::synchronisation::room_locking_service::verif_hook::replay_lock_service(sc),
         "invite_consumption" => crate::network::peer_manager::verif_hook::replay_invite_consumption(sc),
         "data_model_update" => replay_data_model_update(sc),
